@@ -128,7 +128,7 @@ def run(chk, scratch):
     chk.sample({"trace_head": excerpt(tr2, 1, 12)})
     # 5. real time: a lock won by taking a dead holder's lock over is HELD; four heartbeat periods later an overriding contender must be refused
     tr3 = os.path.join(scratch, "takeover-trace.ndjson")
-    p = vlib.run_vh(vh, ["c17", "takeoverhold", "--out", tr3, "--dir", scratch, "--seed", chk.seed, "--n", 12 if thorough else 3], timeout=600)
+    p = vlib.run_vh(vh, ["c17", "takeoverhold", "--out", tr3, "--dir", scratch, "--seed", chk.seed, "--n", 12 if thorough else 4], timeout=600)
     if p.returncode != 0:
         raise vlib.Inconclusive("c17 takeoverhold driver failed: " + (p.stderr or "")[-1500:])
     with open(tr3, "a") as f:
